@@ -1,18 +1,28 @@
 """C14 — partitional and hierarchical clustering return valid, consistent clusterings.
 
 Correspondence (Lean model `NipyVerif.Model.C14`):
-  * every `_EStep` / `_MStep` call made by `kmeans` (traced), the whole `kmeans` run when no
-    float near-tie can steer it, `voronoi`;
-  * `ward` merge sequence (generative model when every argmin is unique; replay checker for
-    `ward` and `ward_quick` always: admissible, cost = merged inertia, cheapest);
-  * `WeightedForest.split` / `partition` label vectors.
-Oracle: the clauses of C14 evaluated directly on the real code (k-means, voronoi, ward,
-ward_quick, average_link_graph, the *_segment wrappers, Field.ward).
+  * every `_EStep` / `_MStep` call made by `kmeans` (traced), the whole `kmeans` run (wrapper argument
+    handling included) when no float near-tie can steer it, random restarts (`kmeansr`), `voronoi`;
+  * `ward` merge sequence (generative model when every argmin is separated by more than rounding;
+    replay checker for `ward` and `ward_quick` always: admissible, cost = merged inertia, cheapest,
+    stored heights = max(cost, children)); the live edge set `_remap` leaves after each merge
+    (`wardedges`); `_auxiliary_graph` + `_initial_inertia` (`auxgraph`); `_inertia` (`inertia`);
+  * `average_link_graph` through a replay checker (`avgchk`: admissible, similarity of the merged pair
+    = model's fused weight, heaviest) and `fusion` called directly (`fusion`);
+  * `WeightedForest.split` / `partition` label vectors, `check_compatible_height`, `list_of_subtrees`
+    on dendrograms from the algorithms and on hand-made forests (`forest` cases); the `*_segment`
+    wrappers with their rarely used arguments (finite `stop`, `qmax = -1 / 0`) (`segment`).
+Two streams of numbers: *dyadic* (binary64 arithmetic exact, first-minimum tie rules compared exactly)
+and *non-dyadic* (thirds, tenths, 1e-3 offsets, 1e6 + small spread, near-duplicates one ulp apart):
+values are compared with the exact model by tolerance, structure (heights non-decreasing child to
+parent, cluster counts of every cut, labels in range) is demanded exactly as the code stores it.
+Oracle: the clauses of C14 evaluated directly on the real code.
 """
 from __future__ import annotations
 
 import re
 import warnings
+from fractions import Fraction
 
 import numpy as np
 
@@ -20,13 +30,14 @@ from harness.core import PropertyCheck
 from harness.util import Snapshot, close, errname, fr, frs, parse_rats
 
 MAXTRACE = 5
+EPS = 2.0 ** -52
 
 
 # ----------------------------------------------------------------------------------------
 # generators
 # ----------------------------------------------------------------------------------------
-def _data(rng, n, p):
-    kind = rng.choice(["ints", "ints", "halves", "two", "dups", "const", "lattice", "blobs"])
+def _base(rng, n, p, kinds):
+    kind = rng.choice(kinds)
     if kind == "ints":
         X = [[float(rng.randrange(-4, 9)) for _ in range(p)] for _ in range(n)]
     elif kind == "halves":
@@ -49,6 +60,48 @@ def _data(rng, n, p):
         cs = [[float(rng.randrange(-20, 21)) for _ in range(p)] for _ in range(rng.choice([2, 3, 4]))]
         X = [[c + rng.randrange(-2, 3) / 2.0 for c in rng.choice(cs)] for _ in range(n)]
     return X
+
+
+ND_KINDS = ["thirds", "tenths", "sevenths", "off", "milli", "big", "bigdy", "huge", "neardup", "ulp", "mixed"]
+
+
+def _nd_scalar(rng, kind, v):
+    """non-dyadic image of the small dyadic number v"""
+    if kind == "thirds":
+        return v / 3.0
+    if kind == "tenths":
+        return v / 10.0
+    if kind == "sevenths":
+        return v / 7.0
+    if kind == "off":
+        return v + 1e-3
+    if kind == "milli":
+        return v * 1e-3 + 0.1
+    if kind == "big":
+        return 1e6 + v / 10.0
+    if kind == "bigdy":
+        return 1e6 + v
+    if kind == "huge":
+        return 1e8 + v / 3.0
+    if kind == "neardup":
+        return v / 10.0 + rng.choice([0.0, 0.0, 0.0, 1e-9, -1e-9, 1e-12])
+    if kind == "ulp":
+        w = v / 3.0
+        r = rng.random()
+        return w if r < 0.6 else float(np.nextafter(w, np.inf if r < 0.8 else -np.inf))
+    raise ValueError(kind)
+
+
+def _data(rng, n, p, stream="dyadic"):
+    if stream == "dyadic":
+        return _base(rng, n, p, ["ints", "ints", "halves", "two", "dups", "const", "lattice", "blobs"])
+    # non-dyadic: exact duplicates on purpose (rounded cost of a zero-variance cluster), then the rest
+    X = _base(rng, n, p, ["dups", "dups", "two", "two", "const", "ints", "halves", "lattice", "blobs"])
+    kind = rng.choice(ND_KINDS)
+    if kind == "mixed":
+        ks = [rng.choice(ND_KINDS[:-1]) for _ in range(p)]
+        return [[_nd_scalar(rng, ks[d], v) for d, v in enumerate(r)] for r in X]
+    return [[_nd_scalar(rng, kind, v) for v in r] for r in X]
 
 
 def _size(rng, lo=2):
@@ -151,100 +204,125 @@ def _connected(members, adj):
 
 def _cls(failure):
     """kind of an oracle failure: its text with the numbers blanked"""
-    return re.sub(r"\d+(\.\d+)?", "#", failure)[:44]
+    return re.sub(r"-?\d+(\.\d+)?(e-?\d+)?", "#", failure)[:44]
 
 
 def _mat(X):
     return " ".join(frs(r) for r in X)
 
 
+def _ints(v):
+    return " ".join(str(int(x)) for x in v)
+
+
+def _random_forest(rng, n):
+    """parents of a random binary forest over n items (children before parents), as merges produce"""
+    roots = list(range(n))
+    parents = list(range(n))
+    while len(roots) > 1 and rng.random() < 0.85:
+        a, b = rng.sample(roots, 2)
+        k = len(parents)
+        parents.append(k)
+        parents[a] = k; parents[b] = k
+        roots = [r for r in roots if r not in (a, b)] + [k]
+    return parents
+
+
 class C14(PropertyCheck):
     id = "C14"
     title = "Partitional and hierarchical clustering return valid, consistent clusterings"
-    lean_modules = ["NipyVerif.Props.C14"]
+    lean_modules = ["NipyVerif.Props.C14", "NipyVerif.Props.C14B", "NipyVerif.Props.C14C", "NipyVerif.Props.C14D", "NipyVerif.Props.C14E"]
     driver = "Drivers/C14.lean"
-    rule = ("cases are (data matrix, cluster count, initial labelling, iteration budget) for k-means/"
-            "voronoi and (data matrix, constraint graph) for the hierarchical algorithms, from a seeded "
-            "PRNG: 1..5 dyadic features with duplicates and tied distances/costs on purpose, 2..60 items, "
-            "graph shapes complete/chain/ring/grid/sparse/several components/isolated/empty/tree/star; "
-            "non-trivial = at least 3 items and (k >= 2 or at least one merge); distinct by full JSON")
+    rule = ("cases are (data matrix, cluster count, initial labelling or restarts, iteration budget, delta) for "
+            "k-means/voronoi, (data matrix, constraint graph) for the Ward family, (similarity graph) for average "
+            "link, hand-made forests with heights for the cut methods, and direct calls of the helpers, from a "
+            "seeded PRNG in two streams: dyadic numbers (binary64 exact; duplicates and tied distances/costs on "
+            "purpose) and non-dyadic ones (thirds, tenths, sevenths, 1e-3 offsets, 1e6/1e8 + small spread, "
+            "near-duplicates 1e-9 or one ulp apart, exact duplicates); 1..5 features, 2..60 items, graph shapes "
+            "complete/chain/ring/grid/sparse/several components/isolated/empty/tree/star, loops and parallel "
+            "edges; non-trivial = at least 3 items and (k >= 2 or at least one merge); distinct by full JSON")
     assumptions = [
-        "float arithmetic of NumPy (sums, means, q - s**2/n) is compared with the exact rational model "
-        "to 1e-9; where two exact costs/distances tie or nearly tie the implementation's choice is "
-        "accepted if it is within 1e-9 of the minimum (first-minimum tie rule is compared exactly only "
-        "when all numbers involved are small dyadics, so that binary64 is exact)",
+        "float arithmetic of NumPy (sums, means, q - s**2/n, fi*w) is compared with the exact rational model by "
+        "tolerance (1e-9 relative for k-means, 1e-13 * n p max|x|^2 for merge costs); where two exact "
+        "costs/distances tie or nearly tie the implementation's choice is accepted if it is within that tolerance "
+        "of the optimum (the first-minimum tie rule is compared exactly only on the dyadic stream)",
+        "structural clauses are demanded exactly as the code stores them, on both streams: heights non-decreasing "
+        "from child to parent (no tolerance), split(k) gives exactly max(k, nbcc) connected clusters for every k, "
+        "partition(th) gives nbcc + #{merges with height >= th}, labels in range",
         "the constraint graph is symmetric (an undirected topology given with both directions); "
         "Graph.cc() and WeightedGraph.symmeterize() (scipy.sparse) are outside the model: the model "
         "receives the undirected edge set and stops when no edge is left",
-        "np.argsort is not stable on ties: ward_quick and the duplicate-edge removal of _remap are "
-        "compared through the replay checker (any admissible cheapest merge is accepted)",
-        "global dendrogram clauses (forest, one tree per component, cut into k connected clusters) and "
-        "average_link_graph are checked by the oracle on the real code, not proved for the model",
-        "cut heights are taken strictly positive (partition at a height <= 0 removes the leaves and "
+        "np.argsort is not stable on ties: ward_quick, average_link_graph and the duplicate-edge removal of "
+        "_remap / fusion are compared through replay checkers (any admissible optimal merge is accepted)",
+        "cut heights are taken above the leaves (partition at a height <= the leaves' removes them and "
         "raises ValueError; recorded as an observation)",
     ]
-    level_note = ("k-means / voronoi clauses and the Ward cost algebra (height monotonicity, superadditivity, "
-                  "cheapest admissible merge of the step) are proved for all inputs of the model; global forest "
-                  "structure, split-into-k and average link are oracle-checked")
+    level_note = ("k-means / voronoi clauses, the Ward cost algebra, the global dendrogram structure of every "
+                  "edge-constrained agglomeration and the cluster counts of split/partition are proved for all "
+                  "inputs of the exact model; floating-point rounding is outside the model and covered by the "
+                  "non-dyadic stream of the oracle")
     finding_keys = {}
 
     # ------------------------------------------------------------------
     def generate(self, rng, tier):
-        nk, nv, nw, na = (260, 100, 300, 90) if tier == "quick" else (1500, 500, 1800, 500)
+        q = tier == "quick"
+        nk, nkn, nv, nvn = (150, 100, 60, 50) if q else (1100, 700, 350, 300)
+        nw, nwn, na, nan = (150, 140, 50, 50) if q else (1300, 1100, 350, 350)
+        nf, npc = (90, 90) if q else (600, 500)
         cases = []
-        for _ in range(nk):
-            n = _size(rng, 1 if rng.random() < 0.05 else 2)
-            p = rng.choice([1, 1, 2, 2, 3, 4, 5])
-            k = rng.choice([1, 2, 2, 3, 3, 4, 5, n, max(1, n - 1), rng.randrange(1, n + 1)])
-            k = max(1, min(k, n))
-            X = _data(rng, n, p)
-            mode = rng.choice(["rand", "rand", "one", "skip", "kk"])
-            if mode == "rand":
-                z0 = [rng.randrange(k) for _ in range(n)]
-            elif mode == "one":
-                z0 = [0] * n
-            elif mode == "skip":    # some clusters empty from the start
-                z0 = [rng.choice([0, k - 1]) for _ in range(n)]
-            else:                   # label == k is accepted by the wrapper
-                z0 = [rng.randrange(k + 1) for _ in range(n)]
-            big = n <= 12 and rng.random() < 0.15
-            cases.append({"kind": "kmeans", "p": p, "k": k, "X": X, "z0": z0,
-                          "maxiter": 300 if big else rng.choice([1, 1, 2, 3, 4, 6]),
-                          "delta": rng.choice([0.0, 0.0, 1e-4, 0.25, 1.0]),
-                          "seed": rng.randrange(1 << 30)})
-        for _ in range(nv):
-            n = _size(rng, 1)
-            p = rng.choice([1, 1, 2, 3, 5])
-            k = rng.choice([1, 2, 3, 4, 7, 12])
-            X = _data(rng, n, p)
-            r = rng.random()
-            if r < 0.4:       # centres among the data, duplicated centres: exact ties
-                C = [list(rng.choice(X)) for _ in range(k)]
-            elif r < 0.7:     # symmetric pairs around data points: equidistant centres
-                C = []
-                for _ in range(k):
-                    x = rng.choice(X); d = rng.choice([0.5, 1.0, 2.0]); s = rng.choice([-1, 1])
-                    C.append([x[0] + s * d] + list(x[1:]))
-            else:
-                C = _data(rng, k, p)
-            form = rng.choice(["2d", "2d", "2d", "1d" if p == 1 else "2d", "mismatch"])
-            if form == "mismatch":
-                C = [c + [0.0] for c in C]
-            cases.append({"kind": "voronoi", "p": p, "X": X, "C": C, "form": form})
-        for _ in range(nw):
-            n = _size(rng)
-            p = rng.choice([1, 1, 2, 3, 5])
-            gk, E = _graph(rng, n)
-            cases.append({"kind": "ward", "p": p, "X": _data(rng, n, p), "graph": gk, "E": E,
-                          "extra": rng.choice(["none", "none", "loops", "parallel"]),
-                          "ks": sorted({1, 2, n, n - 1, rng.randrange(1, n + 1), rng.randrange(1, n + 1)})})
-        for _ in range(na):
-            n = _size(rng)
-            gk, E = _graph(rng, n)
-            und = _und(E)
-            W = [rng.choice([1.0, 1.0, 2.0, 0.5, 3.0, 4.0, 0.25, 8.0]) for _ in und]
-            cases.append({"kind": "avglink", "graph": gk, "n": n, "E": [list(e) for e in und], "W": W,
-                          "ks": sorted({1, 2, n, rng.randrange(1, n + 1)})})
+        for stream, cnt in (("dyadic", nk), ("nondyadic", nkn)):
+            for _ in range(cnt):
+                cases.append(self._gen_kmeans(rng, stream))
+        for stream, cnt in (("dyadic", nk // 6), ("nondyadic", nkn // 6)):
+            for _ in range(cnt):
+                cases.append(self._gen_kmeans_slow(rng, stream))
+        for _ in range(nk // 5):
+            cases.append(self._gen_kmeans_threshold(rng))
+        for stream, cnt in (("dyadic", nv), ("nondyadic", nvn)):
+            for _ in range(cnt):
+                cases.append(self._gen_voronoi(rng, stream))
+        for stream, cnt in (("dyadic", nw), ("nondyadic", nwn)):
+            for _ in range(cnt):
+                n = _size(rng)
+                p = rng.choice([1, 1, 2, 3, 5])
+                gk, E = _graph(rng, n)
+                ncc = len(set(_components(n, _und(E))))
+                cases.append({"kind": "ward", "stream": stream, "p": p, "X": _data(rng, n, p, stream),
+                              "graph": gk, "E": E,
+                              "extra": rng.choice(["none", "none", "loops", "parallel"]),
+                              "ks": sorted({1, 2, n, n - 1, ncc, min(n, ncc + 1), rng.randrange(1, n + 1),
+                                            rng.randrange(1, n + 1)})})
+        for stream, cnt in (("dyadic", na), ("nondyadic", nan)):
+            for _ in range(cnt):
+                n = _size(rng)
+                gk, E = _graph(rng, n)
+                und = _und(E)
+                if stream == "dyadic":
+                    W = [rng.choice([1.0, 1.0, 2.0, 0.5, 3.0, 4.0, 0.25, 8.0]) for _ in und]
+                else:
+                    kind = rng.choice(["thirds", "tenths", "sevenths", "off", "big", "neardup", "ulp"])
+                    W = [_nd_scalar(rng, kind, float(rng.choice([1, 1, 2, 3, 3, 5, 7, 8]))) for _ in und]
+                cases.append({"kind": "avglink", "stream": stream, "graph": gk, "n": n,
+                              "E": [list(e) for e in und], "W": W,
+                              "ks": sorted({1, 2, n, n - 1, rng.randrange(1, n + 1)})})
+        for _ in range(240 if q else 1500):
+            # few distinct similarities on a dense graph: fused averages tie in exact arithmetic
+            # (and differ by rounding when the values are not dyadic)
+            n = rng.randrange(4, 13)
+            dense = rng.random() < 0.5
+            und = [(a, b) for a in range(n) for b in range(a + 1, n) if dense or rng.random() < 0.7]
+            stream = "nondyadic" if rng.random() < 0.85 else "dyadic"
+            kind = rng.choice(["thirds", "tenths", "sevenths", "off"])
+            vals = [float(v) for v in rng.sample([1, 2, 3, 4, 5, 7, 8], rng.choice([1, 2, 2, 3]))]
+            if stream == "nondyadic":
+                vals = [_nd_scalar(rng, kind, v) for v in vals]
+            cases.append({"kind": "avglink", "stream": stream, "graph": "tied", "n": n,
+                          "E": [list(e) for e in und], "W": [rng.choice(vals) for _ in und],
+                          "ks": sorted({1, 2, n, n - 1, rng.randrange(1, n + 1)})})
+        for _ in range(nf):
+            cases.append(self._gen_forest(rng))
+        for _ in range(npc):
+            cases.append(self._gen_pieces(rng))
         if tier == "thorough":   # exhaustive small domain: 1-D data on 0..2, all labellings, n <= 4
             for n in (2, 3, 4):
                 for code in range(3 ** n):
@@ -254,9 +332,186 @@ class C14(PropertyCheck):
                             if (code * 31 + zc * 7 + k) % 5:
                                 continue
                             z0 = [(zc // k ** i) % k for i in range(n)]
-                            cases.append({"kind": "kmeans", "p": 1, "k": k, "X": X, "z0": z0,
-                                          "maxiter": 3, "delta": 0.0, "seed": 1})
+                            cases.append({"kind": "kmeans", "stream": "dyadic", "p": 1, "k": k, "X": X, "z0": z0,
+                                          "maxiter": 3, "delta": 0.0, "seed": 1, "ninit": 1, "mode": "labels"})
+            # every binary forest shape on <= 5 items is reached by the random forests; all cuts of each
+            for n in (2, 3, 4, 5):
+                for rep in range(40):
+                    c = self._gen_forest(rng, n=n)
+                    c["ks"] = list(range(1, n + 2))
+                    cases.append(c)
         return cases
+
+    @staticmethod
+    def _gen_kmeans(rng, stream):
+        n = _size(rng, 1 if rng.random() < 0.05 else 2)
+        p = rng.choice([1, 1, 2, 2, 3, 4, 5])
+        k = rng.choice([1, 2, 2, 3, 3, 4, 5, n, max(1, n - 1), rng.randrange(1, n + 1)])
+        k = max(1, min(k, n))
+        X = _data(rng, n, p, stream)
+        mode = rng.choice(["rand", "rand", "one", "skip", "kk"])
+        if mode == "rand":
+            z0 = [rng.randrange(k) for _ in range(n)]
+        elif mode == "one":
+            z0 = [0] * n
+        elif mode == "skip":    # some clusters empty from the start
+            z0 = [rng.choice([0, k - 1]) for _ in range(n)]
+        else:                   # label == k is accepted by the wrapper
+            z0 = [rng.randrange(k + 1) for _ in range(n)]
+        big = n <= 12 and rng.random() < 0.15
+        c = {"kind": "kmeans", "stream": stream, "p": p, "k": k, "X": X, "z0": z0,
+             "maxiter": 300 if big else rng.choice([1, 1, 2, 3, 4, 6]),
+             "delta": rng.choice([0.0, 0.0, 1e-4, 0.25, 1.0]),
+             "seed": rng.randrange(1 << 30), "ninit": rng.choice([1, 1, 1, 2, 3]),
+             "mode": rng.choice(["labels", "labels", "labels", "restarts"])}
+        r = rng.random()
+        if r < 0.06:      # rarely used argument values the wrapper rewrites
+            c["maxiter"] = rng.choice([0, -1])
+        elif r < 0.12:
+            c["delta"] = rng.choice([-1.0, -1e-4])
+        elif r < 0.18:    # cluster count outside 1..n (clamped), labels valid for the clamped count
+            c["k"] = rng.choice([0, -2, n + 1, n + 5])
+            kk = max(1, min(c["k"], n))
+            c["z0"] = [rng.randrange(kk) for _ in range(n)]
+        return c
+
+    @staticmethod
+    def _gen_kmeans_slow(rng, stream):
+        """runs that need many iterations and whose centre moves shrink gradually: the stopping rule
+        (`delta * vdata`, the substituted 0.0001, the substituted 300 iterations) decides the result"""
+        n = rng.randrange(20, 61)
+        p = rng.choice([1, 1, 2])
+        shape = rng.choice(["lattice", "blobs", "blobs"])
+        if shape == "lattice":
+            X = [[float(i)] + [0.0] * (p - 1) for i in range(n)]
+            k = rng.choice([2, 3, 4])
+            cut = sorted(rng.sample(range(1, 6), k - 1))          # boundaries far from where they end
+            z0 = [sum(1 for b in cut if i >= b) for i in range(n)]
+        else:
+            cs = [[float(rng.randrange(-20, 21)) for _ in range(p)] for _ in range(rng.choice([2, 3]))]
+            X = [[c + rng.randrange(-6, 7) / 4.0 for c in rng.choice(cs)] for _ in range(n)]
+            k = rng.choice([3, 4, 5, 6])
+            z0 = [rng.randrange(k) for _ in range(n)]
+        if stream == "nondyadic":
+            kind = rng.choice(["thirds", "tenths", "off", "big"])
+            X = [[_nd_scalar(rng, kind, v) for v in r] for r in X]
+        return {"kind": "kmeans", "stream": stream, "p": p, "k": k, "X": X, "z0": z0,
+                "maxiter": rng.choice([0, -1, 5, 20, 50]),
+                "delta": rng.choice([-1.0, -1e-4, 0.0, 1e-4, 1e-3, 1e-2]),
+                "seed": rng.randrange(1 << 30), "ninit": 1, "mode": "labels", "slow": True}
+
+    @staticmethod
+    def _gen_kmeans_threshold(rng):
+        """the stopping rule decides: two tight groups and a chain of points between them that change
+        side one after the other (several iterations with small centre moves); a second feature that
+        does not influence the assignment scales `vdata` so that one of the moves is a factor 3 below
+        or above `delta * vdata` (`delta < 0` stands for the substituted 0.0001)."""
+        m = rng.choice([8, 8, 16]); L = rng.randrange(3, 9); D = 16.0
+        sp = rng.choice([0.5, 1.0, 2.0])
+        xs = [0.0] * m + [D] * m + [D / 2 + (j + 0.5) * (D / (2 * m)) * sp for j in range(L)]
+        z0 = [0] * m + [1] * m + [0] * L
+        n = len(xs)
+        # the moves of the 1-D run (the second feature keeps both centres at 0)
+        x = np.array(xs); z = np.array(z0); moves = []
+        c = np.array([x[z == 0].mean(), x[z == 1].mean()])
+        for _ in range(12):
+            z = (np.abs(x - c[1]) < np.abs(x - c[0])).astype(int)
+            c2 = np.array([x[z == q].mean() if np.any(z == q) else x.mean() for q in (0, 1)])
+            moves.append(float(np.sum((c - c2) ** 2))); c = c2
+            if moves[-1] == 0:
+                break
+        live = [t for t, v in enumerate(moves[:-1]) if v > 0]
+        delta = rng.choice([-1.0, -1e-4, 1e-4, 1e-3, 1e-2])
+        target = 1e-4 if delta < 0 else delta
+        H = 0.0
+        if live:
+            t = rng.choice(live)
+            vd = moves[t] / (target * rng.choice([1 / 3.0, 3.0]))
+            vary = 2 * vd - float(np.var(x))
+            if vary > 0:
+                H = round((vary * n / (2 * m)) ** 0.5 * 4) / 4
+        X = [[xs[a], (H if a % 2 == 0 else -H) if a < 2 * m else 0.0] for a in range(n)]
+        return {"kind": "kmeans", "stream": "dyadic", "p": 2, "k": 2, "X": X, "z0": z0,
+                "maxiter": rng.choice([10, 20, 0]), "delta": delta,
+                "seed": rng.randrange(1 << 30), "ninit": 1, "mode": "labels", "slow": True}
+
+    @staticmethod
+    def _gen_voronoi(rng, stream):
+        n = _size(rng, 1)
+        p = rng.choice([1, 1, 2, 3, 5])
+        k = rng.choice([1, 2, 3, 4, 7, 12])
+        X = _data(rng, n, p, stream)
+        r = rng.random()
+        if r < 0.4:       # centres among the data, duplicated centres: exact ties
+            C = [list(rng.choice(X)) for _ in range(k)]
+        elif r < 0.7:     # symmetric pairs around data points: equidistant centres
+            C = []
+            for _ in range(k):
+                x = rng.choice(X); d = rng.choice([0.5, 1.0, 2.0]); s = rng.choice([-1, 1])
+                C.append([x[0] + s * d] + list(x[1:]))
+        else:
+            C = _data(rng, k, p, stream)
+        form = rng.choice(["2d", "2d", "2d", "1d" if p == 1 else "2d", "mismatch"])
+        if form == "mismatch":
+            C = [c + [0.0] for c in C]
+        return {"kind": "voronoi", "stream": stream, "p": p, "X": X, "C": C, "form": form}
+
+    @staticmethod
+    def _gen_forest(rng, n=None):
+        n = n or rng.choice([1, 2, 2, 3, 4, 5, 6, 8, 12, 20])
+        parents = _random_forest(rng, n)
+        V = len(parents)
+        hk = rng.choice(["mono", "mono", "ties", "zero", "nonmono", "neg", "nd"])
+        h = [0.0] * V
+        for v in range(n, V):
+            kids = [c for c in range(V) if parents[c] == v and c != v]
+            lo = max(h[c] for c in kids)
+            if hk == "mono":
+                h[v] = lo + rng.choice([0.0, 0.5, 1.0, 2.0])
+            elif hk == "ties":
+                h[v] = lo + rng.choice([0.0, 0.0, 1.0])
+            elif hk == "zero":
+                h[v] = 0.0
+            elif hk == "nonmono":
+                h[v] = max(0.0, lo + rng.choice([-1.0, -0.5, 0.5, 1.0]))
+            elif hk == "neg":
+                h[v] = lo + rng.choice([-1.0, 0.0, 1.0, -0.25])
+            else:
+                h[v] = lo + rng.choice([0.0, 1 / 3.0, 0.1, 1e-9])
+        ths = sorted(set(h))
+        cuts = [t for t in ths if t > 0][:3] + [(a + b) / 2 for a, b in zip(ths, ths[1:])][:3] + [ths[-1] + 1]
+        return {"kind": "forest", "n": n, "parents": parents, "heights": h, "hk": hk,
+                "ks": sorted({1, 2, n, max(1, n - 1), n + 1, V, rng.randrange(1, V + 2)}), "ths": cuts[:6]}
+
+    @staticmethod
+    def _gen_pieces(rng):
+        what = rng.choice(["inertia", "auxgraph", "fusion", "fusion"])
+        stream = rng.choice(["dyadic", "nondyadic"])
+        if what == "inertia":
+            p = rng.choice([1, 2, 3, 5])
+            A = _data(rng, rng.randrange(1, 6), p, stream)
+            B = _data(rng, rng.randrange(1, 6), p, stream)
+            return {"kind": "pieces", "what": what, "stream": stream, "p": p, "A": A, "B": B}
+        if what == "auxgraph":
+            n = rng.randrange(1, 12)
+            p = rng.choice([1, 2, 3])
+            m = rng.randrange(0, 3 * n)
+            E = [[rng.randrange(n), rng.randrange(n)] for _ in range(m)]   # directed, loops, repeats
+            return {"kind": "pieces", "what": what, "stream": stream, "p": p, "X": _data(rng, n, p, stream), "E": E}
+        # fusion on a symmetric similarity graph over some current roots
+        nodes = rng.sample(range(12), rng.randrange(3, 9))
+        i, j = nodes[0], nodes[1]
+        k = 12 + rng.randrange(3)
+        und = [(min(a, b), max(a, b)) for x, a in enumerate(nodes) for b in nodes[x + 1:]
+               if {a, b} != {i, j} and rng.random() < 0.7]
+        if rng.random() < 0.5:
+            und = [(b, a) if rng.random() < 0.5 else (a, b) for a, b in und]
+        if stream == "dyadic":
+            W = [rng.choice([1.0, 2.0, 0.5, 3.0, 0.25]) for _ in und]
+        else:
+            W = [rng.choice([1 / 3.0, 0.1, 0.7, 1e6 + 0.1, 2 / 7.0]) for _ in und]
+        return {"kind": "pieces", "what": what, "stream": stream, "E": [list(e) for e in und], "W": W,
+                "i": i, "j": j, "k": k, "pi": rng.randrange(1, 6), "pj": rng.randrange(1, 6)}
 
     # ------------------------------------------------------------------
     def run_case(self, case):
@@ -276,42 +531,63 @@ class C14(PropertyCheck):
         from nipy.algorithms.clustering import utils as ku
         X = np.array(c["X"], dtype=float).reshape(len(c["X"]), c["p"])
         n, p, k = X.shape[0], c["p"], c["k"]
+        kk = max(1, min(k, n))
         z0 = np.array(c["z0"], dtype=int)
-        calls = []
-        oE, oM = ku._EStep, ku._MStep
+        restarts = c.get("mode") == "restarts"
+        ninit = c.get("ninit", 1)
+        maxiter = c["maxiter"] if not restarts else max(1, c["maxiter"])
+        calls, draws = [], []
+        oE, oM, orand = ku._EStep, ku._MStep, np.random.rand
 
         def E(x, cen):
             r = oE(x, cen)
             calls.append(("E", np.array(x, float), np.array(cen, float), np.array(r[0]), float(r[1])))
             return r
 
-        def M(x, z, kk):
-            r = oM(x, z, kk)
-            calls.append(("M", np.array(x, float), np.array(z), int(kk), np.array(r, float)))
+        def M(x, z, kq):
+            r = oM(x, z, kq)
+            calls.append(("M", np.array(x, float), np.array(z), int(kq), np.array(r, float)))
+            return r
+
+        def rand(*a):
+            r = orand(*a)
+            draws.append(np.array(r))
             return r
         snap = Snapshot(X=X, z0=z0)
-        ku._EStep, ku._MStep = E, M
+        st = np.random.get_state()
+        np.random.seed(c["seed"] % (2 ** 31))
+        ku._EStep, ku._MStep, np.random.rand = E, M, rand
         try:
             try:
-                Cn, zn, J = ku.kmeans(X, k, Labels=z0, maxiter=c["maxiter"], delta=c["delta"])
+                if restarts:
+                    Cn, zn, J = ku.kmeans(X, k, Labels=None, maxiter=maxiter, delta=c["delta"], ninit=ninit)
+                else:
+                    Cn, zn, J = ku.kmeans(X, k, Labels=z0, maxiter=maxiter, delta=c["delta"], ninit=ninit)
             except Exception as e:
                 return {"oracle": f"kmeans raised {type(e).__name__}: {e} (n={n}, p={p}, k={k}, "
-                                  f"maxiter={c['maxiter']})", "tags": ["kmeans", "raised"]}
+                                  f"maxiter={maxiter}, delta={c['delta']}, ninit={ninit}, restarts={restarts})",
+                        "tags": ["kmeans", "raised"]}
         finally:
-            ku._EStep, ku._MStep = oE, oM
+            ku._EStep, ku._MStep, np.random.rand = oE, oM, orand
+            np.random.set_state(st)
         mut = snap.changed()
         Cn = np.asarray(Cn, float); zn = np.asarray(zn)
-        lines, impl, tags = [], [], ["kmeans"]
+        lines, impl, tags = [], [], ["kmeans", "kmeans-" + c.get("stream", "dyadic")]
         scale = 1.0 + float(np.abs(X).max()) ** 2 * p
         exact_all, fragile_run = True, False
         ne = nm = 0
         prevC = None
         vdat = float(np.mean(np.var(X, 0)))
+        delta_eff = c["delta"]
+        if not restarts and maxiter > 0 and c["delta"] < 0:
+            delta_eff = 0.0001
         for cl in calls:
             if cl[0] == "E":
                 _, x, cen, z, Jv = cl
                 D = ((x[:, None, :] - cen[None, :, :]) ** 2).sum(2)
-                exact = bool(np.all(np.abs(cen) < 1024) and np.all(cen * 1024 == np.round(cen * 1024)))
+                exact = bool(c.get("stream", "dyadic") == "dyadic" and np.all(np.abs(cen) < 1024)
+                             and np.all(cen * 1024 == np.round(cen * 1024))
+                             and np.all(np.abs(x) < 2 ** 20) and np.all(x * 1024 == np.round(x * 1024)))
                 exact_all = exact_all and exact
                 frag = []
                 if not exact:
@@ -320,40 +596,56 @@ class C14(PropertyCheck):
                         for q in o[1:]:
                             if D[i, q] - D[i, o[0]] > 1e-9 * scale:
                                 break
+                            # the whole-run model computes its own exact centres: centres that are the
+                            # same float (e.g. a one-point cluster at the global mean) may differ there
+                            fragile_run = True
                             if not np.array_equal(cen[q], cen[o[0]]):
                                 frag.append(i); break
                 if frag:
                     fragile_run = True
+                prevC = cen
                 if ne < MAXTRACE:
                     ne += 1
                     lines.append(f"estep {p} {n} {cen.shape[0]} {_mat(x)} {_mat(cen)}")
                     impl.append(("estep", z.tolist(), Jv, frag, scale))
             else:
-                _, x, z, kk, cen = cl
-                if prevC is not None and c["delta"] > 0 and prevC.shape == cen.shape:
-                    val, thr = float(np.sum((prevC - cen) ** 2)), c["delta"] * vdat
-                    if thr > 0 and abs(val - thr) <= 1e-9 * (1 + thr):
+                _, x, z, kq, cen = cl
+                # the loop compares the centres handed to the E-step of this iteration with these
+                if prevC is not None and delta_eff > 0 and prevC.shape == cen.shape:
+                    val, thr = float(np.sum((prevC - cen) ** 2)), delta_eff * vdat
+                    if abs(val - thr) <= 1e-9 * (1 + thr) * scale:
                         fragile_run = True
-                prevC = cen
+                prevC = None
                 if nm < MAXTRACE and np.all(z >= 0):
                     nm += 1
-                    lines.append(f"mstep {p} {n} {kk} {_mat(x)} {' '.join(str(int(v)) for v in z)}")
+                    lines.append(f"mstep {p} {n} {kq} {_mat(x)} {_ints(z)}")
                     impl.append(("mat", cen.ravel().tolist(), scale))
-        if not fragile_run:
-            lines.append(f"kmeans {p} {n} {k} {c['maxiter']} {fr(c['delta'])} {_mat(X)} "
-                         f"{' '.join(str(int(v)) for v in z0)}")
+        if not fragile_run and not restarts:
+            lines.append(f"kmeans {p} {n} {k} {maxiter} {fr(c['delta'])} {_mat(X)} {_ints(z0)}")
             impl.append(("kmeans", zn.tolist(), Cn.ravel().tolist(), float(J), scale))
             tags.append("kmeans-full-run")
+        elif not fragile_run and restarts and len(draws) == ninit:
+            inits = [X[np.argsort(d)[:kk]] for d in draws]
+            lines.append(f"kmeansr {p} {n} {kk} {ninit} {maxiter} {fr(c['delta'])} {_mat(X)} "
+                         + " ".join(_mat(I) for I in inits))
+            impl.append(("kmeans", zn.tolist(), Cn.ravel().tolist(), float(J), scale))
+            tags.append("kmeans-restarts-run")
         else:
             tags.append("kmeans-near-tie")
         tags.append("exact-arith" if exact_all else "rounded-arith")
+        if maxiter <= 0:
+            tags.append("maxiter<=0")
+        if c["delta"] < 0:
+            tags.append("delta<0")
+        if k != kk:
+            tags.append("k-clamped")
         if np.isinf(J):
             tags.append("J=inf")
         # ---- oracle
         fail = self._kmeans_valid(X, k, Cn, zn, "kmeans")
-        if fail is None:
+        if fail is None and not restarts:
             # from the fixed initial labelling, more iterations never increase the WCSS of the solution
-            top = c["maxiter"] if c["maxiter"] <= 8 else 8
+            top = min(maxiter, 8) if maxiter > 0 else 4
             prev = None
             for m in range(1, top + 2):
                 Cm, zm, _ = ku.kmeans(X, k, Labels=z0.copy(), maxiter=m, delta=c["delta"])
@@ -366,19 +658,27 @@ class C14(PropertyCheck):
                             f"returned solution rises from {prev} (maxiter={m - 1}) to {w} (maxiter={m})")
                     break
                 prev = w
-        if fail is None:
-            st = np.random.get_state()
-            np.random.seed(c["seed"] % (2 ** 31))
-            try:
-                Cr, zr, _ = ku.kmeans(X, k, Labels=None, maxiter=max(1, min(c["maxiter"], 10)), delta=c["delta"])
-                fail = self._kmeans_valid(X, k, np.asarray(Cr, float), np.asarray(zr), "kmeans(random init)")
-            except Exception as e:
-                fail = f"kmeans with random initialisation raised {type(e).__name__}: {e}"
-            finally:
-                np.random.set_state(st)
-        if len(set(zn.tolist())) < k:
+        if fail is None and restarts:
+            # the same draws, more iterations: the returned solution (last restart) is never worse
+            prev = None
+            for m in range(1, min(maxiter, 6) + 2):
+                np.random.seed(c["seed"] % (2 ** 31))
+                try:
+                    Cm, zm, _ = ku.kmeans(X, k, Labels=None, maxiter=m, delta=c["delta"], ninit=ninit)
+                finally:
+                    np.random.set_state(st)
+                w = self._wcss(X, np.asarray(Cm), np.asarray(zm))
+                f2 = self._kmeans_valid(X, k, np.asarray(Cm, float), np.asarray(zm), f"kmeans(random init, maxiter={m})")
+                if f2:
+                    fail = f2; break
+                if prev is not None and w > prev + 1e-9 * scale * n:
+                    fail = (f"kmeans from fixed random seeds: within-cluster sum of squares of the returned "
+                            f"solution rises from {prev} (maxiter={m - 1}) to {w} (maxiter={m})")
+                    break
+                prev = w
+        if len(set(zn.tolist())) < kk:
             tags.append("empty-cluster")
-        return {"lines": lines, "impl": impl, "oracle": fail, "nontrivial": n >= 3 and k >= 2,
+        return {"lines": lines, "impl": impl, "oracle": fail, "nontrivial": n >= 3 and kk >= 2,
                 "tags": tags, "mutated": mut}
 
     @staticmethod
@@ -407,25 +707,40 @@ class C14(PropertyCheck):
         snap = Snapshot(X=xa, C=ca)
         line = f"voronoi {p} {X.shape[0]} {pc} {C.shape[0]} {_mat(X)} {_mat(C)}"
         fail = None
+        dyadic = c.get("stream", "dyadic") == "dyadic"
         try:
             z = np.asarray(ku.voronoi(xa, ca))
-            obs = ("labels", z.tolist())
-            D = ((X[:, None, :] - C[None, :, :]) ** 2).sum(2)   # exact: small dyadics
-            if z.shape != (X.shape[0],) or z.min() < 0 or z.max() >= C.shape[0]:
-                fail = f"voronoi: labels {z.tolist()} not in range for {C.shape[0]} centres"
+            n, k = X.shape[0], C.shape[0]
+            if z.shape != (n,) or z.min() < 0 or z.max() >= k:
+                fail = f"voronoi: labels {z.tolist()} not in range for {k} centres"
+                obs = ("labels", z.tolist())
             else:
-                bad = np.nonzero(D[np.arange(len(z)), z] > D.min(1))[0]
-                if bad.size:
-                    i = int(bad[0])
-                    fail = (f"voronoi: item {i} labelled {int(z[i])} at squared distance {D[i, z[i]]} "
-                            f"but centre {int(D[i].argmin())} is at {D[i].min()}")
+                # exact squared distances of the binary64 inputs
+                XF = [[Fraction(v) for v in r] for r in X.tolist()]
+                CF = [[Fraction(v) for v in r] for r in C.tolist()]
+                frag = []
+                for i in range(n):
+                    D = [sum((a - b) ** 2 for a, b in zip(XF[i], CF[q])) for q in range(k)]
+                    mn = min(D)
+                    # rounding of (x - c)**2 summed over p features: a few ulps of the largest term
+                    slack = 0 if dyadic else Fraction(8 * (p + 2) * EPS) * max(D[int(z[i])], 1e-300)
+                    if D[int(z[i])] > mn + slack:
+                        fail = (f"voronoi: item {i} labelled {int(z[i])} at squared distance {float(D[int(z[i])])} "
+                                f"but centre {D.index(mn)} is at {float(mn)}")
+                        break
+                    if not dyadic:
+                        near = [q for q in range(k) if D[q] <= mn + 2 * slack + Fraction(1, 10 ** 300)]
+                        if len({tuple(C[q].tolist()) for q in near}) > 1:
+                            frag.append(i)
+                obs = ("vlabels", z.tolist(), frag)
         except Exception as e:
             obs = ("err", errname(e))
             if c["form"] != "mismatch":
                 fail = f"voronoi raised {type(e).__name__}: {e} on consistent shapes"
         return {"lines": [line], "impl": [obs], "oracle": fail,
                 "nontrivial": X.shape[0] >= 3 and C.shape[0] >= 2,
-                "tags": ["voronoi", "voronoi-" + c["form"]], "mutated": snap.changed()}
+                "tags": ["voronoi", "voronoi-" + c["form"], "voronoi-" + c.get("stream", "dyadic")],
+                "mutated": snap.changed()}
 
     # ---- hierarchical -------------------------------------------------
     @staticmethod
@@ -445,7 +760,9 @@ class C14(PropertyCheck):
     @staticmethod
     def _dendrogram(parents, heights, n, und, comps, who, cost_fn, tol):
         """validity of a dendrogram + admissibility/optimality of each merge.
-        cost_fn(setA, setB) -> linkage cost of merging; returns (failure, merge sequence)"""
+        cost_fn(setA, setB) -> linkage cost of merging; returns (failure, merge sequence).
+        Heights must be non-decreasing from child to parent exactly as stored (no tolerance);
+        values are compared with the linkage cost within `tol`."""
         ncc = len(set(comps))
         V = len(parents)
         if V != 2 * n - ncc or len(heights) != V:
@@ -459,9 +776,9 @@ class C14(PropertyCheck):
                 if pv <= v or pv >= V:
                     return f"{who}: parent of node {v} is {pv}: not a forest ordered by creation", None
                 kids.setdefault(pv, []).append(v)
-                if heights[pv] < heights[v] - tol:
-                    return (f"{who}: height decreases from child {v} ({heights[v]}) to parent {pv} "
-                            f"({heights[pv]})"), None
+                if heights[pv] < heights[v]:
+                    return (f"{who}: height decreases from child {v} ({heights[v]!r}) to parent {pv} "
+                            f"({heights[pv]!r})"), None
         seq = []
         for kx in range(n, V):
             ch = kids.get(kx, [])
@@ -516,10 +833,72 @@ class C14(PropertyCheck):
         got = len(set(u.tolist()))
         if got != want:
             return f"{who}: {got} clusters returned, {want} expected"
+        if int(u.min()) < 0 or int(u.max()) >= want:
+            return f"{who}: labels {int(u.min())}..{int(u.max())} out of range for {want} clusters"
         for l in set(u.tolist()):
             if not _connected([v for v in range(n) if u[v] == l], adjl):
                 return f"{who}: cluster {l} is not connected in the constraint graph"
         return None
+
+    def _cuts(self, t, n, ncc, adjl, ks, who, lines, impl, tagk):
+        """split for the ks, partition at heights of the tree: oracle + model lines"""
+        fail = None
+        par, hei = np.asarray(t.parents).tolist(), np.asarray(t.height, float).tolist()
+        V = len(par)
+        ptxt = _ints(par)
+        try:
+            ok = bool(t.check_compatible_height())
+            if not ok:
+                fail = f"{who}: check_compatible_height() is False on the returned dendrogram"
+            lines.append(f"chkheight {V} {ptxt} {frs(hei)}")
+            impl.append(("flag", "1" if ok else "0"))
+        except Exception as e:
+            fail = f"{who}.check_compatible_height() raised {type(e).__name__}: {e}"
+        for k in ks:
+            want = max(min(k, n), ncc)
+            try:
+                u = t.split(k)
+                f = self._cut_ok(u, n, want, adjl, f"{who}.split({k})")
+                obs = ("labels", _canon(u))
+            except Exception as e:
+                f = f"{who}.split({k}) raised {type(e).__name__}: {e} ({n} items, {ncc} components)"
+                obs = ("err", errname(e))
+            fail = fail or f
+            lines.append(f"split {V} {k} {ptxt} {frs(hei)}")
+            impl.append(obs)
+        leafh = max(hei[:n])
+        ths = sorted({h for h in hei if h > leafh})
+        cuts = ths[:2] + ths[-1:] + [(a + b) / 2 for a, b in zip(ths[:3], ths[1:4])] + ([ths[-1] + 1] if ths else [leafh + 1.0])
+        for th in cuts[:5]:
+            want = ncc + sum(1 for v in range(n, V) if not (hei[v] < th))
+            try:
+                u = t.partition(th)
+                f = self._cut_ok(u, n, want, adjl, f"{who}.partition({th!r})")
+                obs = ("labels", _canon(u))
+            except Exception as e:
+                f = f"{who}.partition({th!r}) raised {type(e).__name__}: {e}"
+                obs = ("err", errname(e))
+            fail = fail or f
+            lines.append(f"partition {V} {fr(th)} {ptxt} {frs(hei)}")
+            impl.append(obs)
+        try:
+            st = t.list_of_subtrees()
+            lines.append(f"subtrees {V} {ptxt}")
+            impl.append(("lists", [sorted(int(v) for v in s) for s in st]))
+            if ncc == 1:    # one tree: the caveat of the docstring (parent[i] > i below the root) holds
+                below = {v: {v} for v in range(n)}
+                for v in range(n, V):
+                    below[v] = set()
+                for v in range(V - 1):
+                    below[par[v]] |= below[v]
+                for v in range(n, V):
+                    if sorted(int(x) for x in st[v - n]) != sorted(below[v]):
+                        fail = fail or (f"{who}.list_of_subtrees(): node {v} lists {sorted(int(x) for x in st[v - n])}, "
+                                        f"the items below it are {sorted(below[v])}")
+                        break
+        except Exception as e:
+            fail = fail or f"{who}.list_of_subtrees() raised {type(e).__name__}: {e}"
+        return fail
 
     def _ward(self, c):
         from nipy.algorithms.clustering import hierarchical_clustering as hc
@@ -534,86 +913,115 @@ class C14(PropertyCheck):
         for a, b in und:
             adjl[a].add(b); adjl[b].add(a)
         scale = 1.0 + float(np.abs(X).max()) ** 2 * p * n
-        tol = 1e-9 * scale
+        tol = 1e-13 * scale if c.get("stream") == "nondyadic" else 1e-9 * scale
 
         def wcost(A, B):
             S = X[sorted(A | B)]
             return float(((S - S.mean(0)) ** 2).sum())
-        lines, impl, tags, fail, mut = [], [], ["ward", "graph=" + c["graph"]], None, None
+        stream = c.get("stream", "dyadic")
+        lines, impl, tags, fail, mut = [], [], ["ward", "ward-" + stream, "graph=" + c["graph"]], None, None
         edges_txt = " ".join(f"{a} {b}" for a, b in und)
         trees = {}
         for name in ("ward", "ward_quick"):
             G = self._mkgraph(n, c["E"], c["extra"])
             snap = Snapshot(X=X, e=G.edges if G.E else 0)
+            live = []
+            oremap = hc._remap
+
+            def remap(K, i, j, k, Features, linc, rinc, _o=oremap, _live=live):
+                r = _o(K, i, j, k, Features, linc, rinc)
+                # `_remap` removes double edges on each side only: (k, x) and (x, k) may both stay,
+                # with the same weight; the model keeps one edge per unordered pair
+                d = {}
+                for (a, b), w in zip(K.edges.tolist(), K.weights.tolist()):
+                    if a >= 0:
+                        d.setdefault((int(min(a, b)), int(max(a, b))), []).append(float(w))
+                _live.append(sorted((a, b, ws[0] if len(set(ws)) == 1 else float("nan")) for (a, b), ws in d.items()))
+                return r
+            hc._remap = remap
             try:
                 t = getattr(hc, name)(G, X)
             except Exception as e:
                 fail = fail or f"{name} raised {type(e).__name__}: {e} (n={n}, graph={c['graph']}, {ncc} components)"
                 continue
+            finally:
+                hc._remap = oremap
             mut = mut or snap.changed()
             par, hei = np.asarray(t.parents).tolist(), np.asarray(t.height, float).tolist()
             f, seq = self._dendrogram(par, hei, n, und, comps, name, wcost, tol)
             fail = fail or f
             trees[name] = t
             if seq is not None and len(par) == n + len(seq):
+                seq_txt = " ".join(f"{a} {b}" for a, b in seq)
                 if name == "ward":
                     lines.append(f"ward {p} {n} {len(und)} {_mat(X)} {edges_txt}")
-                    impl.append(("ward", par, hei, scale))
-                lines.append(f"wardchk {p} {n} {len(und)} {len(seq)} {_mat(X)} {edges_txt} "
-                             + " ".join(f"{a} {b}" for a, b in seq))
-                impl.append(("wardchk", par, hei[n:], scale))
-        t = trees.get("ward")
-        if t is not None and fail is None:
-            par, hei = np.asarray(t.parents).tolist(), np.asarray(t.height, float).tolist()
-            V = len(par)
-            ptxt = " ".join(str(int(v)) for v in par)
-            for k in (range(1, n + 1) if n <= 8 else c["ks"]):
-                want = max(k, ncc)
-                try:
-                    u = t.split(k)
-                    f = self._cut_ok(u, n, want, adjl, f"ward(...).split({k})")
-                    obs = ("labels", _canon(u))
-                except Exception as e:
-                    f = f"ward(...).split({k}) raised {type(e).__name__}: {e} ({n} items, {ncc} components)"
-                    obs = ("err", errname(e))
-                fail = fail or f
-                lines.append(f"split {V} {k} {ptxt} {frs(hei)}")
-                impl.append(obs)
-            ths = sorted({h for h in hei if h > 0})
-            cuts = ths[:2] + ths[-1:] + [(a + b) / 2 for a, b in zip(ths[:3], ths[1:4])] + ([ths[-1] + 1] if ths else [1.0])
-            for th in cuts[:5]:
-                want = ncc + sum(1 for v in range(n, V) if not (hei[v] < th))
-                try:
-                    u = t.partition(th)
-                    f = self._cut_ok(u, n, want, adjl, f"ward(...).partition({th})")
-                    obs = ("labels", _canon(u))
-                except Exception as e:
-                    f = f"ward(...).partition({th}) raised {type(e).__name__}: {e}"
-                    obs = ("err", errname(e))
-                fail = fail or f
-                lines.append(f"partition {V} {fr(th)} {ptxt} {frs(hei)}")
-                impl.append(obs)
+                    impl.append(("ward", par, hei, tol))
+                lines.append(f"wardchk {p} {n} {len(und)} {len(seq)} {_mat(X)} {edges_txt} {seq_txt}")
+                impl.append(("wardchk", par, hei, tol))
+                if n <= 10 and len(live) == len(seq):
+                    lines.append(f"wardedges {p} {n} {len(und)} {len(seq)} {_mat(X)} {edges_txt} {seq_txt}")
+                    impl.append(("edgesets", live, tol))
+        for name in ("ward", "ward_quick"):
+            t = trees.get(name)
+            if t is not None and fail is None:
+                ks = list(range(1, n + 1)) if n <= 12 else c["ks"]
+                if name == "ward_quick":
+                    ks = c["ks"]
+                fail = self._cuts(t, n, ncc, adjl, ks, f"{name}(...)", lines, impl, name)
         if fail is None:
-            for k in c["ks"]:
-                want = max(k, ncc)
+            # the wrappers: stop = -1 (no threshold) with every k of the case, plus rarely used arguments
+            # (a finite stop taken from the tree's heights, qmax = -1 / 0)
+            combos = [(-1, k) for k in c["ks"]]
+            for name in ("ward", "ward_quick"):
+                t = trees.get(name)
+                if t is not None:
+                    hs = sorted({h for h in np.asarray(t.height, float).tolist() if h > 0})
+                    if hs:
+                        th = [hs[0], hs[len(hs) // 2], (hs[0] + hs[-1]) / 2, hs[-1] * 2 + 1]
+                        combos += [(th[(len(c["E"]) + q) % 4], q) for q in (c["ks"][0], c["ks"][-1], -1, 0)]
+                    break
+            few = {(-1, c["ks"][0]), (-1, c["ks"][-1])} | set(combos[len(c["ks"]):])
+            for stop, k in combos:
                 for name in ("ward_segment", "ward_quick_segment", "ward_field_segment", "Field.ward"):
+                    if name == "Field.ward" and (stop != -1 or k < 1):
+                        continue
+                    if name != "ward_segment" and (stop, k) not in few:
+                        continue
+                    kind = 0 if name in ("ward_segment", "Field.ward") else 1
+                    t = trees.get("ward" if kind == 0 else "ward_quick")
+                    if t is None:
+                        continue
+                    par, hei = np.asarray(t.parents).tolist(), np.asarray(t.height, float).tolist()
+                    V = len(par)
                     G = self._mkgraph(n, c["E"], c["extra"])
+                    # what the property promises for these arguments
+                    kq = (n - 1 if kind == 0 else k) if k == -1 else k
+                    kq = min(kq, n)
+                    want_split = max(kq, ncc) if kq > 0 else 1
+                    want_part = 1 if (stop != -1 and stop < 0) else \
+                        ncc + (0 if stop == -1 else sum(1 for v in range(n, V) if not (hei[v] < stop)))
+                    want = max(want_split, want_part)
                     try:
                         if name == "ward_segment":
-                            u, cost = hc.ward_segment(G, X, stop=-1, qmax=k)
+                            u, cost = hc.ward_segment(G, X, stop=stop, qmax=k)
                         elif name == "ward_quick_segment":
-                            u, cost = hc.ward_quick_segment(G, X, stop=-1, qmax=k)
+                            u, cost = hc.ward_quick_segment(G, X, stop=stop, qmax=k)
                         else:
                             F = Field(n, G.edges if G.E else None, G.weights if G.E else None, X.copy())
                             if name == "ward_field_segment":
-                                u, cost = hc.ward_field_segment(F, stop=-1, qmax=k)
+                                u, cost = hc.ward_field_segment(F, stop=stop, qmax=k)
                             else:
                                 u, _ = F.ward(k); cost = None
-                        f = self._cut_ok(u, n, want, adjl, f"{name}(qmax={k})")
+                        f = self._cut_ok(u, n, want, adjl, f"{name}(stop={stop!r}, qmax={k})")
                         if f is None and cost is not None and len(cost) != n - ncc:
                             f = f"{name}: {len(cost)} merge costs for {n - ncc} merges"
+                        obs = ("labels", _canon(u))
                     except Exception as e:
-                        f = f"{name}(qmax={k}) raised {type(e).__name__}: {e} ({n} items, {ncc} components)"
+                        f = f"{name}(stop={stop!r}, qmax={k}) raised {type(e).__name__}: {e} ({n} items, {ncc} components)"
+                        obs = ("err", errname(e))
+                    if name != "Field.ward":
+                        lines.append(f"segment {kind} {V} {n} {fr(stop)} {k} {_ints(par)} {frs(hei)}")
+                        impl.append(obs)
                     fail = fail or f
                     if fail:
                         break
@@ -633,33 +1041,273 @@ class C14(PropertyCheck):
         adjl = {v: set() for v in range(n)}
         for a, b in und:
             adjl[a].add(b); adjl[b].add(a)
+        wmax = max(c["W"] + [1.0])
+        tol = (1e-13 if c.get("stream") == "nondyadic" else 1e-9) * (1 + wmax) * n
 
         def sim(A, B):
-            s = sum(W.get((min(a, b), max(a, b)), 0.0) for a in A for b in B)
-            return -max(s / (len(A) * len(B)), 0.0)
-        tags, fail = ["avglink", "graph=" + c["graph"]], None
+            s = sum(Fraction(W.get((min(a, b), max(a, b)), 0.0)) for a in A for b in B)
+            return -max(float(s / (len(A) * len(B))), 0.0)
+        stream = c.get("stream", "dyadic")
+        tags, fail = ["avglink", "avglink-" + stream, "graph=" + c["graph"]], None
+        lines, impl = [], []
         try:
             G = self._mkgraph(n, und, "none", c["W"])
+            snap = Snapshot(e=G.edges if G.E else 0, w=G.weights if G.E else 0)
             t = hc.average_link_graph(G)
+            mut = snap.changed()
             par, hei = np.asarray(t.parents).tolist(), np.asarray(t.height, float).tolist()
             hl = list(hei)
             lo = min(hl) if hl else 0.0
             # leaves sit strictly below every merge; compare merge heights with the negated similarity
-            fail, _ = self._dendrogram(par, hl, n, und, comps, "average_link_graph", sim, 1e-9 * (1 + max(c["W"] + [1.0])))
+            fail, seq = self._dendrogram(par, hl, n, und, comps, "average_link_graph", sim, tol)
             if fail is None and any(hl[v] > lo for v in range(n)):
                 fail = "average_link_graph: a leaf is higher than the lowest node"
+            if seq is not None and len(par) == n + len(seq):
+                lines.append(f"avgchk {n} {len(und)} {len(seq)} "
+                             + " ".join(f"{a} {b} {fr(w)}" for (a, b), w in zip(und, c["W"]))
+                             + " " + " ".join(f"{a} {b}" for a, b in seq))
+                impl.append(("avgchk", par, hei, tol))
             if fail is None:
-                for k in c["ks"]:
+                ks = list(range(1, n + 1)) if n <= 10 else c["ks"]
+                fail = self._cuts(t, n, ncc, adjl, ks, "average_link_graph(...)", lines, impl, "avg")
+            if fail is None:
+                V = len(par)
+                sims = sorted({-h for h in hl[n:]})
+                combos = [(-1, k) for k in c["ks"]] + [(-1, -1)]
+                if sims:   # a finite stop: clusters are cut where the similarity is <= stop
+                    combos += [(sims[len(sims) // 2], c["ks"][0]), (sims[0], 0), (sims[-1], -1)]
+                for stop, k in combos:
                     G = self._mkgraph(n, und, "none", c["W"])
-                    u, cost = hc.average_link_graph_segment(G, stop=-1, qmax=k)
-                    fail = fail or self._cut_ok(u, n, max(k, ncc), adjl, f"average_link_graph_segment(qmax={k})")
+                    kq = min(n if k == -1 else k, n)
+                    want_split = max(kq, ncc) if kq > 0 else 1
+                    want_part = 1 if stop < 0 else ncc + sum(1 for v in range(n, V) if not (hl[v] < -stop))
+                    who = f"average_link_graph_segment(stop={stop!r}, qmax={k})"
+                    try:
+                        u, cost = hc.average_link_graph_segment(G, stop=stop, qmax=k)
+                        fail = fail or self._cut_ok(u, n, max(want_split, want_part), adjl, who)
+                        if fail is None and len(cost) != n - ncc:
+                            fail = f"average_link_graph_segment: {len(cost)} merge costs for {n - ncc} merges"
+                        obs = ("labels", _canon(u))
+                    except Exception as e:
+                        obs = ("err", errname(e))
+                        fail = fail or f"{who} raised {type(e).__name__}: {e} ({n} items, {ncc} components)"
+                    lines.append(f"segment 2 {V} {n} {fr(stop)} {k} {_ints(par)} {frs(hl)}")
+                    impl.append(obs)
         except Exception as e:
+            mut = None
             fail = (f"average_link_graph raised {type(e).__name__}: {e} ({n} items, {len(und)} edges, "
                     f"{ncc} components)")
-        return {"lines": [], "impl": [], "oracle": fail, "nontrivial": n >= 3 and ncc < n, "tags": tags,
-                "mutated": None}
+        return {"lines": lines, "impl": impl, "oracle": fail, "nontrivial": n >= 3 and ncc < n, "tags": tags,
+                "mutated": mut}
+
+    # ---- hand-made forests: the cut methods on their own -----------------
+    def _forest(self, c):
+        from nipy.algorithms.clustering import hierarchical_clustering as hc
+        n, par, hei = c["n"], c["parents"], c["heights"]
+        V = len(par)
+        lines, impl, fail = [], [], None
+        tags = ["forest", "forest-heights=" + c["hk"]]
+        ptxt = _ints(par)
+        try:
+            t = hc.WeightedForest(V, np.array(par, dtype=int), np.array(hei, dtype=float))
+        except Exception as e:
+            return {"oracle": f"WeightedForest({V}, parents, height) raised {type(e).__name__}: {e} on a valid forest",
+                    "tags": tags}
+        snap = Snapshot(p=t.parents, h=t.height)
+        if list(np.asarray(t.get_height())) != hei:
+            fail = "get_height() differs from the heights given"
+        ncc = sum(1 for v in range(V) if par[v] == v)
+        mono = all(hei[par[v]] >= hei[v] for v in range(V))
+        ok = bool(t.check_compatible_height())
+        lines.append(f"chkheight {V} {ptxt} {frs(hei)}"); impl.append(("flag", "1" if ok else "0"))
+        if ok != mono:
+            fail = fail or f"check_compatible_height() = {ok} but heights are {'' if mono else 'not '}non-decreasing child to parent"
+        # leaves of each node / the tree structure: the dendrogram itself is the constraint (every subtree connected)
+        below = {v: {v} for v in range(n)}
+        for v in range(n, V):
+            below[v] = set()
+        for v in range(V):
+            if par[v] != v:
+                below[par[v]] |= below[v]
+        leaflow = all(hei[v] <= hei[k] for v in range(n) for k in range(n, V))
+        for k in c["ks"]:
+            try:
+                u = np.asarray(t.split(k))
+                obs = ("labels", _canon(u))
+                if mono and leaflow:
+                    want = max(min(k, n), ncc)
+                    if u.shape != (n,) or len(set(u.tolist())) != want:
+                        fail = fail or (f"split({k}) on a forest of {n} items in {ncc} trees with monotone heights: "
+                                        f"{len(set(u.tolist()))} clusters in a vector of shape {u.shape}, {want} expected")
+                    elif not self._subtree_clusters(u, below, n, V):
+                        fail = fail or f"split({k}): a cluster is not the item set of a subtree"
+            except Exception as e:
+                obs = ("err", errname(e))
+                if mono and leaflow:
+                    fail = fail or f"split({k}) raised {type(e).__name__}: {e} on a forest with monotone heights"
+            lines.append(f"split {V} {k} {ptxt} {frs(hei)}"); impl.append(obs)
+        for th in c["ths"]:
+            try:
+                u = np.asarray(t.partition(th))
+                obs = ("labels", _canon(u))
+                if mono and all(hei[v] < th for v in range(n)):
+                    want = ncc + sum(1 for v in range(n, V) if not (hei[v] < th))
+                    if u.shape != (n,) or len(set(u.tolist())) != want:
+                        fail = fail or (f"partition({th!r}): {len(set(u.tolist()))} clusters, {want} expected "
+                                        f"(trees + merges at or above the threshold)")
+                    elif not self._subtree_clusters(u, below, n, V):
+                        fail = fail or f"partition({th!r}): a cluster is not the item set of a subtree"
+            except Exception as e:
+                obs = ("err", errname(e))
+                if mono and all(hei[v] < th for v in range(n)):
+                    fail = fail or f"partition({th!r}) raised {type(e).__name__}: {e}"
+            lines.append(f"partition {V} {fr(th)} {ptxt} {frs(hei)}"); impl.append(obs)
+        try:
+            st = t.list_of_subtrees()
+            lines.append(f"subtrees {V} {ptxt}")
+            impl.append(("lists", [sorted(int(v) for v in s) for s in st]))
+            if ncc == 1:
+                for v in range(n, V):
+                    if sorted(int(x) for x in st[v - n]) != sorted(below[v]):
+                        fail = fail or f"list_of_subtrees(): node {v} lists {sorted(int(x) for x in st[v - n])}, items below it are {sorted(below[v])}"
+                        break
+        except Exception as e:
+            fail = fail or f"list_of_subtrees() raised {type(e).__name__}: {e}"
+        # set_height / get_height round trip
+        try:
+            h2 = [v + 1.0 for v in hei]
+            t.set_height(np.array(h2))
+            if list(np.asarray(t.get_height())) != h2:
+                fail = fail or "set_height then get_height does not return the heights set"
+            t.set_height(np.array(hei))
+        except Exception as e:
+            fail = fail or f"set_height raised {type(e).__name__}: {e}"
+        return {"lines": lines, "impl": impl, "oracle": fail, "nontrivial": n >= 3 and V > n, "tags": tags,
+                "mutated": snap.changed()}
+
+    @staticmethod
+    def _subtree_clusters(u, below, n, V):
+        sets = {}
+        for a in range(n):
+            sets.setdefault(int(u[a]), set()).add(a)
+        subs = {frozenset(below[v]) for v in range(V)}
+        return all(frozenset(s) in subs for s in sets.values())
+
+    # ---- direct calls of the helpers ---------------------------------------
+    def _pieces(self, c):
+        from nipy.algorithms.clustering import hierarchical_clustering as hc
+        from nipy.algorithms.graph.graph import WeightedGraph
+        what = c["what"]
+        tags = ["pieces", "pieces-" + what, "pieces-" + c["stream"]]
+        fail, lines, impl, mut = None, [], [], None
+        nd = c["stream"] == "nondyadic"
+        if what == "inertia":
+            p = c["p"]
+            A = np.array(c["A"], float).reshape(-1, p); B = np.array(c["B"], float).reshape(-1, p)
+            Features = [np.array([float(len(A)), float(len(B))]), np.vstack([A.sum(0), B.sum(0)]),
+                        np.vstack([(A ** 2).sum(0), (B ** 2).sum(0)])]
+            snap = Snapshot(a=Features[0], b=Features[1], c=Features[2])
+            v = float(hc._inertia(0, 1, Features))
+            mut = snap.changed()
+            S = np.vstack([A, B])
+            want = float(((S - S.mean(0)) ** 2).sum())
+            scale = 1.0 + float(np.abs(S).max()) ** 2 * p * len(S)
+            tol = (1e-13 if nd else 1e-9) * scale
+            if not close(v, want, 1e-9, tol):
+                fail = f"_inertia = {v} but the within-cluster sum of squares of the union is {want}"
+            v2 = float(hc._inertia_(0, 1, [A, B]))
+            if not close(v2 * len(S), want, 1e-9, tol):
+                fail = fail or f"_inertia_ = {v2} but variance summed over features is {want / len(S)}"
+            lines.append(f"inertia {p} {len(A)} {frs(Features[1][0])} {frs(Features[2][0])} "
+                         f"{len(B)} {frs(Features[1][1])} {frs(Features[2][1])}")
+            impl.append(("val", v, tol))
+        elif what == "auxgraph":
+            p = c["p"]
+            X = np.array(c["X"], float).reshape(-1, p)
+            n = X.shape[0]
+            E = c["E"]
+            G = WeightedGraph(n, np.array(E, dtype=int).reshape(-1, 2), np.ones(len(E))) if E else WeightedGraph(n)
+            Features = [np.ones(2 * n), np.zeros((2 * n, p)), np.zeros((2 * n, p))]
+            Features[1][:n] = X; Features[2][:n] = X ** 2
+            snap = Snapshot(e=G.edges if G.E else 0)
+            scale = 1.0 + float(np.abs(X).max()) ** 2 * p * n
+            tol = (1e-13 if nd else 1e-9) * scale
+            try:
+                K = hc._auxiliary_graph(G, Features)
+                got = [(int(a), int(b), float(w)) for (a, b), w in zip(K.edges.tolist(), K.weights.tolist())]
+                und = _und(E)
+                if [(a, b) for a, b, _ in got] != und:
+                    fail = f"_auxiliary_graph: edges {[(a, b) for a, b, _ in got][:8]} for the undirected edge set {und[:8]}"
+                if K.V != 2 * n - 1:
+                    fail = fail or f"_auxiliary_graph: {K.V} vertices for {n} items"
+                lines.append(f"auxgraph {p} {n} {len(E)} {_mat(X)} " + " ".join(f"{a} {b}" for a, b in E))
+                impl.append(("edgesets", [got], tol))
+                # _initial_inertia with seeds: only edges at a seed get a finite weight
+                seeds = [v for v in range(n) if v % 3 == 0]
+                K2 = hc._auxiliary_graph(G, Features)
+                hc._initial_inertia(K2, Features, seeds)
+                for (a, b), w, w0 in zip(K2.edges.tolist(), K2.weights.tolist(), K.weights.tolist()):
+                    if (a in seeds or b in seeds) != np.isfinite(w) or (np.isfinite(w) and w != w0):
+                        fail = fail or f"_initial_inertia(seeds): edge ({a},{b}) weight {w} (unseeded weight {w0})"
+                        break
+            except Exception as e:
+                fail = f"_auxiliary_graph raised {type(e).__name__}: {e} ({n} items, {len(E)} directed edges)"
+            mut = snap.changed()
+        else:
+            und = [tuple(e) for e in c["E"]]
+            W = list(c["W"])
+            i, j, k = c["i"], c["j"], c["k"]
+            d = und + [(b, a) for a, b in und]
+            w = W + W
+            K = WeightedGraph(16, np.array(d, dtype=int).reshape(-1, 2), np.array(w, dtype=float)) if d else None
+            pop = np.ones(16, dtype=int)
+            pop[i], pop[j] = c["pi"], c["pj"]; pop[k] = c["pi"] + c["pj"]
+            tol = (1e-13 if nd else 1e-9) * (1 + max(W + [1.0]))
+            if K is not None:
+                try:
+                    hc.fusion(K, pop, i, j, k)
+                    live = [(int(a), int(b), float(x)) for (a, b), x in zip(K.edges.tolist(), K.weights.tolist()) if a >= 0]
+                    lo = sorted((a, b, x) for a, b, x in live if a < b)
+                    hi = sorted((b, a, x) for a, b, x in live if a > b)
+                    if [(a, b) for a, b, _ in lo] != [(a, b) for a, b, _ in hi] or \
+                            any(not close(x, y, 1e-12, tol) for (_, _, x), (_, _, y) in zip(lo, hi)):
+                        fail = f"fusion: the two directions of the merged graph differ: {lo[:6]} vs {hi[:6]}"
+                    fi = Fraction(c["pi"], c["pi"] + c["pj"])
+                    wd = {(min(a, b), max(a, b)): x for (a, b), x in zip(und, W)}
+                    for a, b, x in lo:
+                        o = a if b == k else b
+                        if a == k or b == k:
+                            wi = Fraction(wd.get((min(i, o), max(i, o)), 0.0))
+                            wj = Fraction(wd.get((min(j, o), max(j, o)), 0.0))
+                            want = float(fi * wi + (1 - fi) * wj)
+                            if not close(x, want, 1e-12, tol):
+                                fail = fail or (f"fusion: similarity between the merged cluster and {o} is {x}, "
+                                                f"the population-weighted mean is {want}")
+                    lines.append(f"fusion {len(und)} " + " ".join(f"{a} {b} {fr(x)}" for (a, b), x in zip(und, W))
+                                 + f" {i} {j} {k} {c['pi']} {c['pj']}")
+                    impl.append(("edgesets", [lo], tol))
+                except Exception as e:
+                    fail = f"fusion raised {type(e).__name__}: {e}"
+        return {"lines": lines, "impl": impl, "oracle": fail, "nontrivial": True, "tags": tags, "mutated": mut}
 
     # ------------------------------------------------------------------
+    @staticmethod
+    def _cmp_edgesets(sets, model_out, tol):
+        msets = [s.strip() for s in model_out.split(";")] if model_out.strip() else []
+        if len(sets) != len(msets) and not (len(sets) == 1 and not sets[0] and not msets):
+            return f"{len(sets)} edge sets observed, model has {len(msets)}"
+        for t, (got, ms) in enumerate(zip(sets, msets)):
+            toks = ms.split()
+            if len(toks) != 3 * len(got):
+                return f"after merge {t}: {len(got)} live edges, model has {len(toks) // 3}"
+            for q, (a, b, w) in enumerate(got):
+                ma, mb, mw = int(toks[3 * q]), int(toks[3 * q + 1]), float(Fraction(toks[3 * q + 2]))
+                if (a, b) != (ma, mb):
+                    return f"after merge {t}: live edge {(a, b)} vs model {(ma, mb)}"
+                if not close(w, mw, 1e-9, tol):
+                    return f"after merge {t}: weight of edge {(a, b)} impl={w} model={mw}"
+        return None
+
     def compare(self, case, impl_obs, model_out):
         kind = impl_obs[0]
         if model_out.startswith("bad-op"):
@@ -669,10 +1317,31 @@ class C14(PropertyCheck):
         if model_out.startswith("error"):
             return f"impl returned a value, model says {model_out}"
         parts = [s.strip() for s in model_out.split("|")]
+        if kind == "flag":
+            return None if model_out.strip() == impl_obs[1] else f"flag impl={impl_obs[1]} model={model_out}"
+        if kind == "val":
+            mv = float(parse_rats(parts[0])[0])
+            return None if close(impl_obs[1], mv, 1e-9, impl_obs[2]) else f"value impl={impl_obs[1]} model={mv}"
+        if kind == "lists":
+            got = [" ".join(str(v) for v in s) for s in impl_obs[1]]
+            ml = [" ".join(str(v) for v in sorted(int(x) for x in s.split())) for s in model_out.split(";")] \
+                if model_out.strip() else []
+            return None if got == ml else f"subtree lists impl={got[:6]} model={ml[:6]}"
+        if kind == "edgesets":
+            return self._cmp_edgesets(impl_obs[1], model_out, impl_obs[2])
         if kind == "labels":
             want = " ".join(str(v) for v in impl_obs[1])
-            got = " ".join(str(v) for v in _canon(parts[0].split())) if case["kind"] == "ward" else parts[0]
+            got = " ".join(str(v) for v in _canon(parts[0].split()))
             return None if want == got else f"labels impl={want} model={got}"
+        if kind == "vlabels":
+            _, z, frag = impl_obs
+            mz = [int(v) for v in parts[0].split()]
+            if len(mz) != len(z):
+                return "label count differs"
+            for i, (a, b) in enumerate(zip(z, mz)):
+                if a != b and i not in frag:
+                    return f"voronoi label of item {i}: impl={a} model={b}"
+            return None
         if kind == "estep":
             _, z, J, frag, scale = impl_obs
             mz = [int(v) for v in parts[0].split()]
@@ -705,34 +1374,40 @@ class C14(PropertyCheck):
             mj = float(parse_rats(parts[2])[0])
             return None if close(J, mj, 1e-9, 1e-9 * scale) else f"kmeans J impl={J} model={mj}"
         if kind == "ward":
-            _, par, hei, scale = impl_obs
-            if parts[2] != "1":
-                return None       # tied costs: any cheapest merge is legal; see the wardchk line
+            _, par, hei, tol = impl_obs
+            gap = float("inf") if parts[2] == "inf" else float(Fraction(parts[2]))
+            if not gap > 4 * tol:
+                return None       # (nearly) tied costs: any cheapest merge is legal; see the wardchk line
             mp = [int(v) for v in parts[0].split()]
             if mp != par:
                 return f"ward parents impl={par} model={mp}"
             mh = [float(x) for x in parse_rats(parts[1])]
-            if len(mh) != len(hei) or any(not close(a, b, 1e-9, 1e-9 * scale) for a, b in zip(hei, mh)):
+            if len(mh) != len(hei) or any(not close(a, b, 1e-9, tol) for a, b in zip(hei, mh)):
                 return f"ward heights impl={hei} model={mh}"
             return None
-        if kind == "wardchk":
-            _, par, costs, scale = impl_obs
+        if kind in ("wardchk", "avgchk"):
+            _, par, hei, tol = impl_obs
             mp = [int(v) for v in parts[0].split()]
             if mp != par:
                 return f"replayed parents impl={par} model={mp}"
             toks = parts[1].split()
-            if len(toks) != 3 * len(costs):
+            nm = len(toks) // 3
+            if len(toks) != 3 * nm or len(par) - nm < 0:
                 return "replay length differs"
-            for t in range(len(costs)):
-                adm, cst, mn = toks[3 * t], float(parse_rats(toks[3 * t + 1])[0]), float(parse_rats(toks[3 * t + 2])[0])
+            n = len(par) - nm
+            for t in range(nm):
+                adm, cst, opt = toks[3 * t], float(Fraction(toks[3 * t + 1])), float(Fraction(toks[3 * t + 2]))
                 if adm != "1":
                     return f"merge {t}: clusters not joined by a live edge in the model"
-                if not close(cst, costs[t], 1e-9, 1e-9 * scale):
-                    return f"merge {t}: height impl={costs[t]} model inertia={cst}"
-                if cst > mn + 1e-9 * scale:
-                    return f"merge {t}: cost {cst} but the model's cheapest admissible merge costs {mn}"
+                if kind == "wardchk" and cst > opt + tol:
+                    return f"merge {t}: cost {cst} but the model's cheapest admissible merge costs {opt}"
+                if kind == "avgchk" and cst < opt - tol:
+                    return f"merge {t}: similarity {cst} but the model's heaviest live edge weighs {opt}"
             if parts[2] != "0":
                 return f"{parts[2]} live edges left after the last merge"
+            mh = [float(x) for x in parse_rats(parts[3])]
+            if len(mh) != len(hei) or any(not close(a, b, 1e-9, tol) for a, b in zip(hei, mh)):
+                return f"heights impl={hei[n:n + 6]} model={mh[n:n + 6]} (first merges)"
             return None
         return "unknown observation kind"
 
@@ -776,6 +1451,8 @@ class C14(PropertyCheck):
                 yield c
             if k == "kmeans" and case["maxiter"] > 1:
                 c = dict(case); c["maxiter"] = min(case["maxiter"] - 1, 8); yield c
+            if k == "kmeans" and case.get("ninit", 1) > 1:
+                c = dict(case); c["ninit"] = 1; yield c
         if k in ("ward", "avglink"):
             n = len(case["X"]) if k == "ward" else case["n"]
             if n > 5:
@@ -791,6 +1468,13 @@ class C14(PropertyCheck):
                 c = dict(case); c["p"] = case["p"] - 1; c["X"] = [r[:-1] for r in case["X"]]; yield c
             if k == "ward" and case.get("extra") != "none":
                 c = dict(case); c["extra"] = "none"; yield c
+        if k == "forest":
+            if len(case["ks"]) > 1:
+                for v in case["ks"]:
+                    c = dict(case); c["ks"] = [v]; yield c
+            if len(case["ths"]) > 1:
+                for v in case["ths"]:
+                    c = dict(case); c["ths"] = [v]; yield c
 
     def classify(self, case, failure):
         return None
